@@ -8,11 +8,12 @@ from syntax import val_sexp
 
 
 class Case:
-    __slots__ = ("decl", "k", "op", "arg", "impl", "model", "oracle")
+    __slots__ = ("decl", "k", "op", "arg", "impl", "model", "oracle", "spec", "spec_arg")
 
-    def __init__(self, decl, k, op, arg):
+    def __init__(self, decl, k, op, arg, spec_arg=None):
         self.decl, self.k, self.op, self.arg = decl, k, op, arg
-        self.impl = self.model = self.oracle = None
+        self.impl = self.model = self.oracle = self.spec = None
+        self.spec_arg = spec_arg      # raw value on which the L3 specification is evaluated
 
     @property
     def cid(self):
@@ -32,11 +33,11 @@ class GuardRun:
         self.model_verdict = {}
         self.stats = {}
 
-    def add_ops(self, d, ops):
-        """ops: list of (op, arg_text)"""
+    def add_ops(self, d, ops, spec=False):
+        """ops: list of (op, arg_text); spec: also evaluate the L3 specification on arg"""
         lst = self.by_decl.setdefault(d.id, [])
         for op, arg in ops:
-            c = Case(d, len(lst), op, arg)
+            c = Case(d, len(lst), op, arg, arg if spec else None)
             lst.append(c)
             self.cases.append(c)
 
@@ -92,6 +93,9 @@ class GuardRun:
                     ops.append("(from %s)" % c.arg)
                 else:
                     ops.append("(%s %s)" % (c.op, c.arg))
+            for c in self.by_decl.get(d.id, []):
+                if c.spec_arg is not None:
+                    ops.append("(spec %s)" % c.spec_arg)
             lines.append("(case %s %s %s%s)" % (d.id, ft, d.sexp(), "".join(" " + o for o in ops)))
         return lines
 
@@ -103,6 +107,14 @@ class GuardRun:
             self.model_verdict[d.id] = out.get(d.id, "missing")
         for c in self.cases:
             c.model = out.get(c.cid)
+        for d in self.decls:
+            lst = self.by_decl.get(d.id, [])
+            n = len(lst)
+            j = 0
+            for c in lst:
+                if c.spec_arg is not None:
+                    c.spec = out.get("%s.%d" % (d.id, n + j))
+                    j += 1
         self.stats["model_s"] = round(time.time() - t0, 1)
         self._lines = lines
 
